@@ -24,7 +24,7 @@ ASSUMPTIONS = ['start/stop by name use match=simple when the name contains glob 
                'glob matching would address several watchers)',
                'configuration files never define two names equal ignoring case (ambiguous)']
 BUDGET = {'quick': 240, 'thorough': 1500}
-POOL = ['a', 'A', 'b', 'B b', '', 'ü', 'a.b', '*', 'Web1', 'a ', ' b', '  ', 'Web1\t']
+POOL = ['a', 'A', 'b', 'B b', '', 'ü', 'a.b', '*', 'Web1', 'a ', ' b', '  ', 'Web1\t', 'load50%', '%s', 'x' * 300]
 FILE_POOL = ['a', 'A', 'b', 'B b', 'ü', 'a.b', 'Web1']
 
 
